@@ -53,7 +53,11 @@ PROGRAMS = ['Transformer.__call__', 'BaseReactor.__init__ (_to_delete, replaceme
 
 
 def generate(ctx):
-    return []   # the anchored code has no literal data tables; templates are read live from the modules on every run
+    # the anchored code has no literal data tables of its own (templates are read live from the modules on every run);
+    # the hydrogen recomputation of the model runs over the regenerated periodic table (shared with C04/C18)
+    from ..gen import gen_periodic
+    path = gen_periodic.generate()[0]
+    return [path]
 
 
 # ------------------------------------------------------------------------------------------------
@@ -174,7 +178,7 @@ SYNTHETIC = [
     ('new-atom-h0', '[O;D1:1][C:2]', '[A:1]([A:2])[C;h0:5]', {}),
     ('new-two-atoms', '[O;D1:1]', '[A:1][C:10](=[O:11])', {}),
     ('new-chain', '[C;D1:1]', '[A:1][C:4][C:5][Cl:6]', {}),
-    ('element-replacement', '[C:1][O;D1:2]', 'mol:[CH2:1][NH2:2]', {}),
+    ('element-replacement', '[C:1][O;D1:2]', 'mol:[CH3:1][NH2:2]', {}),
     ('element-new', '[C;D1:1]', 'mol:[CH3:1][OH:9]', {}),
     ('delete-leaf', '[C:1][F,Cl,Br,I;D1]', '[A:1]', {}),
     ('delete-inner', '[C:1][O;D2][C:2]', '[A:1].[A:2]', {}),
@@ -274,9 +278,11 @@ class Cases:
 
     def __init__(self, ctx):
         self.ctx = ctx
-        self.req, self.exp, self.tag, self.stream = [], [], [], []
+        self.req, self.exp, self.tag, self.stream, self.replay = [], [], [], [], []
+        self.inited = set()
 
-    def add(self, stream, tag, line, expected, nontrivial=True):
+    def add(self, stream, tag, line, expected, nontrivial=True, replay=None):
+        self.replay.append(replay)
         self.req.append(line)
         self.exp.append(norm(expected))
         self.tag.append(tag)
@@ -296,7 +302,8 @@ class Cases:
             ctx.broke('correspondence', 'driver-lines', f'{len(got)} responses for {len(self.req)} requests')
             return
         bad = 0
-        for line, e, g, tag, st in zip(self.req, self.exp, got, self.tag, self.stream):
+        sampled = set()
+        for line, e, g, tag, st, rp in zip(self.req, self.exp, got, self.tag, self.stream, self.replay):
             g = norm(g)
             if st == 'single_stage_split' and g.startswith('ok ') and e.startswith('ok '):
                 g = 'ok ' + canon_mol_text(g[3:])
@@ -307,12 +314,13 @@ class Cases:
                 ctx.cov['disagreements_checked'] += 1
                 if bad <= 12:
                     ctx.broke('correspondence', st, f'{tag}: model {g[:600]!r} impl {e[:600]!r} request {line[:900]}')
-                self.ctx.disagree.append({'stream': st, 'tag': tag, 'request': line})
-            elif len(ctx.cov['samples']) < 6 and st in ('patch', 'del') and len(line) < 500:
-                ctx.sample({'stream': st, 'case': tag, 'request': line, 'answer': g[:300]})
+                self.ctx.disagree.append({'stream': st, 'tag': tag, 'request': line, 'replay': rp})
+            elif st not in sampled and len(line) < 700 and (st != 'del' or 'rand' in tag) and not g.startswith('err'):
+                sampled.add(st)
+                ctx.sample({'stream': st, 'case': tag, 'request': line, 'answer': g[:400]}, limit=8)
 
 
-def add_transformer_cases(cases, name, q, r, mol, tag, kw, limit=6):
+def add_transformer_cases(cases, name, q, r, mol, tag, kw, limit=6, qs=None, rs=None):
     """public stream (Transformer call) + private streams (_get_deleted/_patcher) for one (template, molecule)"""
     from chython import Transformer
     ctx = cases.ctx
@@ -320,24 +328,30 @@ def add_transformer_cases(cases, name, q, r, mol, tag, kw, limit=6):
     da = kw.get('delete_atoms', True)
     af = kw.get('automorphism_filter', True)
     tenc = enc_template(q, r, da)
+    first = name not in cases.inited
+    cases.inited.add(name)
     try:
         t = Transformer(q, r, fix_aromatic_rings=False, **kw)
     except Exception as e:
-        cases.add('init', f'{name}', 'init ' + ' '.join(map(str, tenc)), err_text(e))
-        ctx.dist('init:' + type(e).__name__)
+        if first:
+            cases.add('init', f'{name}', 'init ' + ' '.join(map(str, tenc)), err_text(e))
+            ctx.dist('init:' + type(e).__name__)
         return 0
-    cases.add('init', f'{name}', 'init ' + ' '.join(map(str, tenc)), 'ok ' + ' '.join(map(str, sorted(t._to_delete))),
-              nontrivial=bool(t._to_delete))
+    if first:
+        cases.add('init', f'{name}', 'init ' + ' '.join(map(str, tenc)), 'ok ' + ' '.join(map(str, sorted(t._to_delete))),
+                  nontrivial=bool(t._to_delete))
     mappings = list(itertools.islice(q.get_mapping(mol, automorphism_filter=af), limit))
     if not mappings:
         ctx.dist('nomatch')
         return 0
     mints = wire.mol_to_ints(mol)
     changed = True
+    rp = {'kind': 'transform', 'template': name, 'pattern': qs or str(q), 'replacement': rs or repl_text(r), 'kwargs': kw,
+          'fix_rings': False, 'wire': mints}
     # private stream
     for mp in mappings:
         line = 'patch ' + ' '.join(map(str, tenc + enc_mapping(mp) + mints))
-        cases.add('patch', f'{name} on {tag} match {mp}', line, impl_patch(t, mol, mp), nontrivial=changed)
+        cases.add('patch', f'{name} on {tag} match {mp}', line, impl_patch(t, mol, mp), nontrivial=changed, replay=rp)
     # public stream: the generator must yield exactly one product per mapping, in the same order
     try:
         prods = list(itertools.islice(t(mol), limit))
@@ -345,7 +359,7 @@ def add_transformer_cases(cases, name, q, r, mol, tag, kw, limit=6):
     except Exception as e:
         exp = err_text(e)
     line = 'trans ' + ' '.join(map(str, tenc + [len(mappings)] + [x for mp in mappings for x in enc_mapping(mp)] + mints))
-    cases.add('trans', f'{name} on {tag}', line, exp)
+    cases.add('trans', f'{name} on {tag}', line, exp, replay=rp)
     ctx.dist(f'matches:{min(len(mappings), 6)}')
     return len(mappings)
 
@@ -599,11 +613,228 @@ def add_del_cases(cases, ctx):
 
 
 # ------------------------------------------------------------------------------------------------
+# Reactor: fix_mapping_overlap, _single_stage (union, patch, collision remap), public call
+# ------------------------------------------------------------------------------------------------
+
+BLOCKS = ['CC(=O)O', 'OC(=O)c1ccccc1', 'CN', 'CCNCC', 'Nc1ccccc1', 'C1CCNCC1', 'Brc1ccccc1', 'Clc1ccncc1', 'Ic1ccc(C)cc1',
+          'OB(O)c1ccccc1', 'CC1(C)OB(OC1(C)C)c1ccccc1', 'C#Cc1ccccc1', 'CC#C', 'O=C=Nc1ccccc1', 'CN=C=O', 'CS(=O)(=O)Cl',
+          'O=S(=O)(Cl)c1ccccc1', 'CC=O', 'O=Cc1ccccc1', 'CC(C)=O', 'CCO', 'OCc1ccccc1', 'CC(C)O', 'NCC(=O)O',
+          'OC(=O)CCC(=O)O', 'NCCN', 'C=CCBr', 'CCCBr', 'BrCC(=O)OC', 'OC(=O)C(F)(F)F', 'CC(N)C(=O)O',
+          'FC(F)(F)c1ccc(Br)cc1', 'Nc1ccc(Br)cc1', 'OB(O)C1CC1', 'CC(C)(C)OC(=O)NCCN', 'O=C1CCCCC1', 'CNC',
+          'c1ccc(Nc2ccccc2)cc1', 'CNc1ccccc1', 'C1CNCO1', 'CNOC', 'CNNC(C)=O', 'BrC=C', 'CC=CBr', 'CC(Cl)=O', 'OB(O)C=C',
+          'OB(O)C#CC', 'CCl', 'CCCl', '[Na+].[Cl-]', 'O']
+
+SYNTH_REACTORS = [
+    # (name, patterns, products, kwargs)
+    ('ester', ['[C:1](=[O:2])[O;D1:3]', '[C;z1:4][O;D1:5]'], ['[A:1](=[A:2])[A:5][A:4]'], {}),
+    ('alkylation-salt', ['[C;z1:1][Cl,Br;D1:2]', '[N;D1:3][C:4]'], ['[A:1][A:3][A:4]', '[A-:2]'], {}),
+    ('single-pattern', ['[C:1]=[O:2]'], ['[A:1]-[A:2]'], {}),
+    ('single-pattern-multi', ['[C;z1:1][Br;D1:2]'], ['[A:1][O:2]'], {'one_shot': False, 'polymerise_limit': 3}),
+    ('new-atoms-two-reactants', ['[C:1][N;D1:2]', '[C:3][O;D1:4]'], ['[A:1][A:2][C:7](=[O:8])[A:4][A:3]'], {}),
+    ('keep-all', ['[N;D1:1]', '[O;D1:2]'], ['[A:1].[A:2]'], {'delete_atoms': False}),
+]
+
+
+def blocks():
+    if 'blocks' not in _tpl_cache:
+        from chython import smiles
+        _tpl_cache['blocks'] = [(b, smiles(b)) for b in BLOCKS]
+    return _tpl_cache['blocks']
+
+
+def infer_remap_order(before, after):
+    """`after` = `before` with some atoms renumbered by dict(zip(<set order>, count(start))), dict order preserved:
+    returns the renumbered old ids in the order the set was iterated (ascending new number)."""
+    ch = [(b, a) for b, a in zip(before._atoms, after._atoms) if a != b]
+    return [b for b, a in sorted(ch, key=lambda p: p[1])]
+
+
+def add_overlap_case(cases, tag, mols):
+    from chython.reactor.reactor import fix_mapping_overlap
+    try:
+        fixed = fix_mapping_overlap(mols)
+        exp = 'ok ' + ' ; '.join(render_mol(f) for f in fixed)
+        orders = [infer_remap_order(m, f) for m, f in zip(mols, fixed)]
+    except Exception as e:
+        exp, orders, fixed = err_text(e), [[] for _ in mols], None
+    req = [len(mols)]
+    for o in orders:
+        req += [len(o)] + o
+    for m in mols:
+        req += wire.mol_to_ints(m)
+    cases.add('overlap', tag, 'overlap ' + ' '.join(map(str, req)), exp, nontrivial=any(orders))
+    return fixed
+
+
+def add_reactor_cases(cases, name, patterns, products, kw, mols, tag, limit=4):
+    """K: fix_mapping_overlap and every match of `_single_stage` for every choice of reactants; returns #matches"""
+    from functools import reduce
+    from operator import or_
+    from itertools import permutations
+    from chython import Reactor
+    from chython._functions import lazy_product
+    ctx = cases.ctx
+    kw = dict(kw)
+    try:
+        R = Reactor(patterns, products, fix_aromatic_rings=False, **kw)
+    except Exception as e:
+        ctx.notes.append(f'reactor {name} not constructible: {type(e).__name__}')
+        return 0
+    fixed = add_overlap_case(cases, f'{name} on {tag}', mols)
+    if fixed is None:
+        return 0
+    upat = reduce(or_, patterns)
+    tenc = enc_template(upat, R._replacement, kw.get('delete_atoms', True))
+    total = 0
+    idx = list(range(len(fixed)))
+    for chosen_i in permutations(idx, len(patterns)):
+        chosen = [fixed[i] for i in chosen_i]
+        ignored_m = [fixed[i] for i in idx if i not in chosen_i]
+        ignored = {x for m in ignored_m for x in m}
+        matches = list(itertools.islice(lazy_product(*(x.get_mapping(y, automorphism_filter=R._automorphism_filter)
+                                                       for x, y in zip(patterns, chosen))), limit))
+        if not matches:
+            continue
+        try:
+            outs = list(itertools.islice(R._single_stage(chosen, ignored), limit))
+            err = None
+        except Exception as e:
+            outs, err = [], err_text(e)
+        united = reduce(or_, chosen)
+        for k, match in enumerate(matches):
+            mapping = dict(match[0])
+            for m in match[1:]:
+                mapping.update(m)
+            try:
+                pre = R._patcher(united, dict(mapping))
+                order = list(set(pre).intersection(ignored))
+            except Exception:
+                order = []
+            req = tenc + enc_mapping(mapping) + [len(chosen)]
+            for m in chosen:
+                req += wire.mol_to_ints(m)
+            req += [len(ignored)] + sorted(ignored) + [len(order)] + order
+            if err is not None:
+                exp, stream = err, 'single_stage'
+            elif k >= len(outs):
+                exp, stream = 'missing product', 'single_stage'
+            elif len(R._products_atoms) > 1:
+                # split(): components as separate molecules — compare the order-free union
+                texts = [render_mol(p) for p in outs[k]]
+                n = sum(int(t.split()[0]) for t in texts)
+                exp = 'ok ' + canon_mol_text(str(n) + ' ' + ' '.join(t.split(' ', 1)[1] for t in texts if ' ' in t))
+                stream = 'single_stage_split'
+            else:
+                exp, stream = 'ok ' + render_mol(outs[k][0]), 'single_stage'
+            cases.add(stream, f'{name} on {tag} chosen {chosen_i} match {mapping}', 'stage ' + ' '.join(map(str, req)), exp)
+            total += 1
+            if err is not None:
+                break
+    return total
+
+
+def reactor_clauses(patterns, products, kw, mols, rng, builtin=False, limit=20):
+    """property-level clauses on the public `Reactor.__call__` (real code only)"""
+    from chython import Reactor
+    kw = dict(kw)
+    R = Reactor(patterns, products, **kw)
+    bad = []
+
+    def run(ms):
+        out = []
+        for rxn in itertools.islice(R(*ms), limit):
+            out.append(rxn)
+        return out
+
+    try:
+        base = run([m.copy() for m in mols])
+    except Exception as e:
+        return [('reactor-raises', f'{type(e).__name__}: {e}')]
+    for rxn in base:
+        nums = [n for p in rxn.products for n in p]
+        if len(nums) != len(set(nums)):
+            bad.append(('unique-numbers', f'product atom numbers repeat in {rxn}: {sorted(nums)}'))
+        if builtin and all(not m.check_valence() for m in mols):
+            for p in rxn.products:
+                if p.check_valence():
+                    bad.append(('valence-valid', f'product {p} of {rxn} has valence errors at {p.check_valence()}'))
+    key = lambda rs: sorted({'.'.join(sorted(str(p) for p in r.products)) for r in rs})
+    kb = key(base)
+    if len(base) < limit:
+        # reactant order
+        if len(mols) > 1:
+            ms = [m.copy() for m in mols]
+            rng.shuffle(ms)
+            try:
+                other = key(run(ms))
+                if other != kb:
+                    bad.append(('order-independence', f'products {kb} vs {other} for reactant order {[str(m) for m in ms]}'))
+            except Exception as e:
+                bad.append(('order-independence', f'permuted reactants raised {type(e).__name__}: {e}'))
+        # reactant numbering / insertion order
+        ms = []
+        for m in mols:
+            m2 = molgen.renumber(rng, m)[0]
+            ms.append(m2 if str(m2) == str(m) else m.copy())
+        try:
+            other = key(run(ms))
+            if other != kb:
+                bad.append(('numbering-independence', f'products {kb} vs {other} after renumbering '
+                                                      f'{[wire.mol_to_ints(m) for m in ms]}'))
+        except Exception as e:
+            bad.append(('numbering-independence', f'renumbered reactants raised {type(e).__name__}: {e}'))
+    return bad
+
+
+def reactor_replay(name, patterns, products, kw, mols):
+    return {'kind': 'reactor', 'template': name, 'patterns': [str(p) for p in patterns],
+            'products': [repl_text(p) for p in products], 'kwargs': kw, 'wires': [wire.mol_to_ints(m) for m in mols]}
+
+
+def probe_reactor(inp):
+    import random
+    from chython import smarts
+    pats = [smarts(p) for p in inp['patterns']]
+    prods = [parse_repl(p) for p in inp['products']]
+    mols = [wire.ints_to_mol(w, calc=True)[0] for w in inp['wires']]
+    bad = []
+    for seed in range(3):
+        bad += reactor_clauses(pats, prods, inp.get('kwargs') or {}, mols, random.Random(seed),
+                               builtin=inp.get('template', '').startswith('reactions'))
+    if bad:
+        return True, '; '.join(f'{c}: {d}' for c, d in bad[:4])
+    return False, 'all reactor clauses hold'
+
+
+def reactor_inputs(ctx, patterns, n_sets):
+    """tuples of building blocks matching the patterns (plus one spectator molecule), numbers colliding as parsed"""
+    cands = [[(b, m) for b, m in blocks() if p < m] for p in patterns]
+    if not all(cands):
+        return []
+    out = []
+    for _ in range(n_sets):
+        pick = [ctx.rng.choice(c) for c in cands]
+        extra = [ctx.rng.choice(blocks())] if ctx.rng.random() < 0.6 else []
+        ms = pick + extra
+        ctx.rng.shuffle(ms)
+        out.append(('+'.join(b for b, _ in ms), [m.copy() for _, m in ms]))
+    return out
+
+
+# ------------------------------------------------------------------------------------------------
 # correspondence
 # ------------------------------------------------------------------------------------------------
 
+EXTRA_MOLS = ['CCCCC', 'CC(C)CCC', 'CCCCO', 'OCCCC', 'COC', 'CCOCC', 'CN(C)C', 'C1CN1C', 'C1CCN(C)C1', 'C1COCC1', 'C1CCOCC1',
+              'CC(C)OC', 'COC(C)=O', 'CC(C)OC(C)=O', 'ClCCl', 'FC(F)F', 'BrCCBr', 'CC=CC', 'C=CC=C', 'CC(=O)C', 'CNCC', 'CCN',
+              'C[NH3+]', 'C1CC2CCC1N2C', 'CN1CC1', 'C1CCC2(CC1)OCCO2', 'CC1(C)OCC(CO)O1', 'c1ccccc1Cl', 'Brc1ccc(Cl)cc1',
+              'OCC1CCCO1', 'C1OC1', 'CN1C2CCC1CC2', '[Na+].CC(=O)[O-]', 'CCO.O', 'N12CCC(CC1)CC2']
+
+
 def molecules_for(ctx, n_corpus):
+    from chython import smiles
     mols = [(s, m) for s, m in molgen.handmade()]
+    mols += [(s, smiles(s)) for s in EXTRA_MOLS]
     mols += molgen.corpus(ctx.rng, n_corpus)
     return mols
 
@@ -682,6 +913,29 @@ def correspond(ctx):
                     for cl, det in clauses(q, r, mol, {}, fix_rings=fr, limit=6, builtin=True):
                         ctx.fail(f'C16/{cl}', f'{name} on {tag} (fix_rings={fr}): {det}', replay_input(name, q, r, {}, mol, fr))
 
+    # Reactor: built-in reaction templates and synthetic multi-reactant templates
+    from chython import smarts as _sm
+    rxs = []
+    for name, R in builtin_reactions():
+        rxs.append((name, list(R._patterns), list(R._products), {'automorphism_filter': False}, True))
+    for name, ps, rs, kw in SYNTH_REACTORS:
+        try:
+            rxs.append(('synthetic.' + name, [_sm(p) for p in ps], [parse_repl(x) for x in rs], kw, False))
+        except Exception as e:
+            ctx.broke('correspondence', 'synthetic-template-parse', f'{name}: {type(e).__name__}: {e}')
+    for name, pats, prods, kw, builtin in rxs:
+        sets = reactor_inputs(ctx, pats, 2 if ctx.quick else 8)
+        if not sets:
+            ctx.dist('reactor-no-input')
+            ctx.notes.append(f'no building block matches reactor {name}')
+            continue
+        for tag, ms in sets:
+            k = add_reactor_cases(cases, name, pats, prods, kw, ms, tag)
+            ctx.dist('reactor-matches', k)
+            if k:
+                for cl, det in reactor_clauses(pats, prods, kw, ms, rng, builtin=builtin):
+                    ctx.fail(f'C16/{cl}', f'{name} on {tag}: {det}', reactor_replay(name, pats, prods, kw, ms))
+
     cases.run()
 
 
@@ -701,6 +955,82 @@ def repl_text(r):
 # failing-input search and probe
 # ------------------------------------------------------------------------------------------------
 
+def build_mol(atoms, bonds):
+    """molecule through the public API with exactly this atom / bond insertion order"""
+    from chython import MoleculeContainer
+    from chython.periodictable import Element
+    m = MoleculeContainer()
+    for n, sym in atoms:
+        m.add_atom(Element.from_symbol(sym)(), n)
+    for a, b, *o in bonds:
+        m.add_bond(a, b, o[0] if o else 1)
+    return m
+
+
+def probe_orders(inp, cap=1000):
+    """every bond insertion order (and both orientations of each bond, capped) must give the expected product strings"""
+    from chython import smarts, Transformer
+    import random
+    q, r = smarts(inp['pattern']), parse_repl(inp['replacement'])
+    t = Transformer(q, r)
+    expect = sorted(inp['expect'])
+    bonds = [tuple(b) for b in inp['bonds']]
+    perms = list(itertools.permutations(bonds))
+    rng = random.Random(0)
+    seen_bad = None
+    n = 0
+    for perm in perms:
+        flips = [0, (1 << len(bonds)) - 1] + [rng.getrandbits(len(bonds)) for _ in range(max(0, cap // len(perms) - 2))]
+        for f in flips:
+            bs = [(b[1], b[0]) + tuple(b[2:]) if f >> i & 1 else b for i, b in enumerate(perm)]
+            m = build_mol(inp['atoms'], bs)
+            got = sorted(str(p) for p in t(m))
+            n += 1
+            if got != expect and seen_bad is None:
+                seen_bad = (bs, got)
+    if seen_bad:
+        return True, f'bond insertion order {seen_bad[0]} gives products {seen_bad[1]}, expected {expect} ({n} orders tried)'
+    return False, f'all {n} bond insertion orders give {expect}'
+
+
+def probe_transform(inp):
+    from chython import smarts
+    mol = wire.ints_to_mol(inp['wire'], calc=True)[0]
+    q, r = smarts(inp['pattern']), parse_repl(inp['replacement'])
+    bad = clauses(q, r, mol, inp.get('kwargs') or {}, fix_rings=bool(inp.get('fix_rings')), limit=50,
+                  builtin=inp.get('template', '').startswith(('deprotection', 'reactions')))
+    bad += numbering_clauses(q, r, mol, inp.get('kwargs') or {})
+    if bad:
+        return True, '; '.join(f'{c}: {d}' for c, d in bad[:4])
+    return False, 'all clauses hold'
+
+
+def numbering_clauses(q, r, mol, kw=None, rng=None, rounds=2):
+    """the product set (canonical strings) does not depend on reactant numbering / insertion order"""
+    import random
+    from chython import Transformer
+    rng = rng or random.Random(0)
+    kw = dict(kw or {})
+    t = Transformer(q, r, **kw)
+    bad = []
+    try:
+        base = sorted({str(p) for p in t(mol)})
+    except Exception as e:
+        return [('numbering-independence', f'transformer raised {type(e).__name__}: {e}')]
+    for _ in range(rounds):
+        m2 = molgen.renumber(rng, mol)[0]
+        if str(m2) != str(mol):
+            continue   # canonical string itself not invariant here: that is C01's business, not a template defect
+        try:
+            other = sorted({str(p) for p in t(m2)})
+        except Exception as e:
+            bad.append(('numbering-independence', f'renumbered input raised {type(e).__name__}: {e}'))
+            continue
+        if other != base:
+            bad.append(('numbering-independence', f'products {base} vs {other} after renumbering {wire.mol_to_ints(m2)}'))
+    return bad
+
+
 def search(ctx):
     """property-level oracle on the real code, starting from the disagreeing cases"""
     return
@@ -713,4 +1043,10 @@ def probe(inp):
         got = impl_del(bonds, inp['tpl'], mapping)
         spec = 'ok ' + ' '.join(map(str, sorted(spec_del(bonds, inp['tpl'], mapping))))
         return got != spec, f'_get_deleted -> {got}; spec -> {spec}'
+    if inp.get('kind') == 'orders':
+        return probe_orders(inp)
+    if inp.get('kind') == 'transform':
+        return probe_transform(inp)
+    if inp.get('kind') == 'reactor':
+        return probe_reactor(inp)
     return None, 'unknown probe kind'
